@@ -337,11 +337,18 @@ def elabAssign (Γ : Env) (o : BinOp) (a : IExpr) (τa : ETy) (b : IExpr) (τb :
 /-- `most_sig_scalar` -/
 def mostSigScalar (l r : Scalar) : Scalar := if mostSigOrder l > mostSigOrder r then l else r
 
+/-- the second `st` of `parse_expr_ternary` (fix c05bffa): unless both arms are `Scalar` layers (`is_scalar_result`) an
+    untyped literal kind is replaced by the concrete one (table `Gen.TypingTables.litTernRemap`) -/
+def ternScalar (la lb : Layer) (s : Scalar) : Scalar :=
+  match la, lb with
+  | .scalar _, .scalar _ => s
+  | _, _ => litTernRemap s
+
 /-- the unmodified types both arms of `?:` are compared at (`lhs_target_tyl`, `rhs_target_tyl`) -/
 def ternTargets (la lb : Layer) : Except Err (Layer × Layer) :=
   let st : Option Scalar :=
     match la.extractScalar, lb.extractScalar with
-    | some l, some r => some (mostSigScalar l r)
+    | some l, some r => some (ternScalar la lb (mostSigScalar l r))
     | _, _ => none
   match st, mostSignificantDimension la lb with
   | some s, some d => .ok (Layer.ofDim s d, Layer.ofDim s d)
